@@ -12,7 +12,7 @@ import z3
 
 from . import smt
 from .smt import lift, fresh, fresh_int, fresh_bool, memo1
-from .values import (SInt, SBool, SFloat, SStr, Model, Unsupported, is_numlike, is_intlike, to_real_parts, to_int_term,
+from .values import (Opaque, SInt, SBool, SFloat, SStr, Model, Unsupported, is_numlike, is_intlike, to_real_parts, to_int_term,
                      to_bool_term, ite_val, raw, BoolArr, cnt)
 from .pandas_model import SSeries
 from .lib import LIB_DOC
@@ -370,3 +370,185 @@ class _RowsLoc(Model):
             ctx.ghost.setdefault('row_writes', []).append((idx[1], m, val))
             return None
         raise Unsupported('.loc[...] = shape on a row frame')
+
+
+# ---------------------------------------------------------------------------------------------
+# operations of the slicing stage (find_slices): column creation, masks of a frame copy, label assignment from an array
+# ---------------------------------------------------------------------------------------------
+LIB_DOC['pandas.Series.notna()'] = 'True where the value is not NaN'
+LIB_DOC['pandas.DataFrame.loc[:, col] = scalar'] = 'sets (or creates) the column col with that value in every row'
+LIB_DOC['pandas.DataFrame.loc[bool Series, [col]] = scalar / array'] = ('rows where the mask (aligned on the index) is True get the scalar, or '
+                                                                        'the k-th element of the array for the k-th such row; the array '
+                                                                        'length must equal the number of such rows (ValueError otherwise)')
+LIB_DOC['pandas.DataFrame[[cols]][bool Series].to_numpy()'] = '2-D array, one row per selected row, the listed columns in order'
+LIB_DOC['pandas.Series[bool Series] / len'] = 'the selected elements; len = number of True in the mask'
+
+
+def _same_index(a: SRows, b: SRows) -> bool:
+    """two frames whose rows and index labels are the same, in the same order (a frame and its copy)"""
+    return a.fid == b.fid or (getattr(a, 'index_id', a.fid) == getattr(b, 'index_id', b.fid))
+
+
+def _series_notna(self, ctx):
+    a = self.at
+    return SRowSeries(self.frame, lambda i: SBool(z3.Not(to_real_parts(a(i))[0]), 'npbool'), 'bool')
+
+
+SRowSeries.m_notna = _series_notna
+
+
+class SRowSelSeries(Model):
+    """series[bool Series]"""
+    pytype = 'Series'
+
+    def __init__(self, series, mask):
+        self.series, self.mask = series, mask
+
+    def sym_len(self, ctx):
+        fr = self.series.frame
+        m = self.mask.at
+        M = getattr(self.mask, '_selmask', None)        # one array per mask object: the same mask counted twice is one count
+        if M is None:
+            M = fresh('selmask', BoolArr)
+            ctx.assume(smt.Forall(0, fr.n, lambda i: M[i] == z3.And(fr.present(i), to_bool_term(m(i))), name='sl'))
+            ctx.note_cnt(M)
+            ctx.hint(fr.n, 0)
+            self.mask._selmask = M
+            ctx.ghost.setdefault('mask_arrays', []).append((self.mask, M))
+        ctx.cnt_mono = True          # (count 0 <=> no selected row needs the monotonicity instances of cnt)
+        return SInt(cnt(M, fr.n))
+
+
+def _rowseries_getitem(self, ctx, idx):
+    if isinstance(idx, SRowSeries) and idx.dtype == 'bool':
+        if not _same_index(idx.frame, self.frame):
+            raise Unsupported('boolean mask with another index')
+        return SRowSelSeries(self, idx)
+    raise Unsupported('row Series index kind')
+
+
+SRowSeries.sym_getitem = _rowseries_getitem
+
+
+def _rows_loc_getitem2(self, ctx, idx):
+    if isinstance(idx, tuple) and len(idx) == 2 and isinstance(idx[0], slice) and idx[0] == slice(None, None, None) and isinstance(idx[1], str):
+        return self.frame.column(idx[1])
+    return _rows_loc_getitem1(self, ctx, idx)
+
+
+def _mask_array(ctx, fr, mask):
+    """materialised  present & mask  of a mask aligned with frame fr"""
+    M = fresh('asgmask', BoolArr)
+    m = mask.at
+    ctx.assume(smt.Forall(0, fr.n, lambda i: M[i] == z3.And(fr.present(i), to_bool_term(m(i))), name='am'))
+    ctx.note_cnt(M)
+    ctx.hint(fr.n)
+    return M
+
+
+def _rows_loc_setitem2(self, ctx, idx, val):
+    fr = self.frame
+    if isinstance(idx, tuple) and len(idx) == 2 and isinstance(idx[0], slice) and idx[0] == slice(None, None, None) and isinstance(idx[1], str):
+        if val is None:
+            fr.cols[idx[1]] = memo1(lambda i: Opaque('None cell'))
+            fr.kinds[idx[1]] = 'object'
+            return None
+        if not is_numlike(val):
+            raise Unsupported('column fill with this value')
+        fr.cols[idx[1]] = memo1(lambda i, val=val: val)
+        fr.kinds[idx[1]] = 'int' if is_intlike(val) else 'float'
+        ctx.ghost.setdefault('row_writes', []).append((idx[1], 'all rows', val))
+        return None
+    if isinstance(idx, tuple) and len(idx) == 2 and isinstance(idx[0], SRowSeries) and idx[0].dtype == 'bool' \
+            and isinstance(idx[1], list) and len(idx[1]) == 1 and isinstance(idx[1][0], str):
+        col, mask = idx[1][0], idx[0]
+        if not _same_index(mask.frame, fr) or not (fr.positional and mask.frame.positional):
+            raise Unsupported('boolean mask aligned on another / non-unique index')
+        if col not in fr.cols:
+            raise Unsupported('mask-based assignment creating a column')
+        old = fr.cols[col]
+        m = mask.at
+        if is_numlike(val):
+            fr.cols[col] = memo1(lambda i, old=old: ite_val(z3.And(fr.present(i), to_bool_term(m(i))), val, old(i)))
+            ctx.ghost.setdefault('row_writes', []).append((col, mask, val))
+            return None
+        from .lib import SArr
+        if isinstance(val, SArr):
+            M = _mask_array(ctx, fr, mask)
+            src = getattr(val, 'of_selection', None)      # ghost: the row selection these values were computed from
+            if src is not None:
+                S = src
+                # each value goes back to the row it was computed from: the assignment mask is that selection (then the counts
+                # agree: instance of the proved lemma cnt_ext)
+                ctx.oblige('safe.values_go_back_to_their_rows', smt.Forall(0, fr.n, lambda j: M[j] == S[j]))
+                ctx.assume(smt.Forall(0, fr.n, lambda j: M[j] == S[j], name='gb'))
+                ctx.assume(cnt(M, fr.n) == cnt(S, fr.n))
+                ctx.used_lemmas.add('cnt_ext')
+            ctx.safe('setitem_length', cnt(M, fr.n) == val.n, exc='ValueError')
+            ctx.cnt_mono = True
+            ctx.term_maps.append(lambda t, M=M: cnt(M, t))
+            va = val.at
+            fr.cols[col] = memo1(lambda i, old=old: ite_val(M[lift(i)], va(cnt(M, lift(i))), old(i)))
+            ctx.ghost.setdefault('row_writes', []).append((col, mask, val))
+            return None
+    return _rows_loc_setitem1(self, ctx, idx, val)
+
+
+_rows_loc_getitem1, _rows_loc_setitem1 = _RowsLoc.sym_getitem, _RowsLoc.sym_setitem
+_RowsLoc.sym_getitem, _RowsLoc.sym_setitem = _rows_loc_getitem2, _rows_loc_setitem2
+
+
+def _rows_setitem(self, ctx, idx, val):
+    from .pandas_model import SSeries as _SS
+    if isinstance(idx, str) and isinstance(val, _SS):
+        if isinstance(val, SRowSeries) and not _same_index(val.frame, self):
+            raise Unsupported('column assignment from a Series with another index')
+        ctx.safe('setcol_len', val.n == self.n, exc='ValueError')
+        at = val.at
+        self.cols[idx] = memo1(lambda i: at(i))
+        self.kinds[idx] = val.dtype
+        return None
+    raise Unsupported('row-frame column assignment kind')
+
+
+SRows.sym_setitem = _rows_setitem
+
+
+class SRowsCols(Model):
+    """frame[[c1, c2]]"""
+    pytype = 'DataFrame'
+
+    def __init__(self, frame, cols):
+        self.frame, self.cols = frame, tuple(cols)
+
+    def sym_getitem(self, ctx, idx):
+        if isinstance(idx, SRowSeries) and idx.dtype == 'bool':
+            if not _same_index(idx.frame, self.frame):
+                raise Unsupported('boolean mask with another index')
+            return SRowSelCols(self.frame, idx, self.cols)
+        raise Unsupported('column-subset index kind')
+
+
+def _rows_getitem2(self, ctx, idx):
+    if isinstance(idx, list) and idx and all(isinstance(c, str) for c in idx):
+        for c in idx:
+            if c not in self.cols:
+                from .engine import PyRaise
+                raise PyRaise('KeyError', c)
+        return SRowsCols(self, idx)
+    if isinstance(idx, SRowSeries) and idx.dtype == 'bool' and idx.frame.fid != self.fid and _same_index(idx.frame, self):
+        return SRowsSel(self, idx)
+    return _rows_getitem1(self, ctx, idx)
+
+
+_rows_getitem1 = SRows.sym_getitem
+SRows.sym_getitem = _rows_getitem2
+SRowSelCols.m_to_numpy = lambda self, ctx: SSelValues(self)
+
+
+def _selvalues_len(self, ctx):
+    sel = self.selection
+    return SRowSelSeries(SRowSeries(sel.frame, lambda i: SBool(True), 'bool'), sel.mask).sym_len(ctx)
+
+
+SSelValues.sym_len = _selvalues_len
